@@ -29,7 +29,7 @@ cat /repo/go.sum harness/go.sum.extra 2>/dev/null | sort -u > harness/go.sum
 
 mkdir -p evidence replays
 if [ "${1:-}" != "--nowarm" ]; then
-  (cd harness && go build ./... && go vet -tags verif ./lib/... >/dev/null 2>&1 || true)
+  (cd harness && go build -tags verif ./... >/dev/null 2>&1 && go vet -tags verif ./lib/... >/dev/null 2>&1 || true)
   (cd harness && go test -tags verif -count=1 -run '^$' ./... >/dev/null 2>&1 || true)
 fi
 echo "setup ok"
